@@ -4,8 +4,7 @@
     What is NOT true of the model (and of the Go code): a position reported by [kmpSearch] need
     not be an occurrence of [find] (the non-standard shift [i = table[i]; m = m + i - table[i]]
     evaluated with the new [i] under-shifts, after which the assumed matched prefix is wrong):
-    [kmpSearch_unsound_refuted] below.  The search is the naive, exact one whenever the first
-    element of [find] does not occur again in [find] ([kmpSearch_naive] in ProofsKmpNaive). *)
+    [kmpSearch_unsound_refuted] below. *)
 From Coq Require Import ZArith List Bool Lia Sorted.
 From Texel Require Import Prelude.Base Index.Model Snap.Model.
 Import ListNotations.
@@ -386,7 +385,8 @@ Proof.
 Qed.
 
 (** ** what is false: a reported position need not be an occurrence.
-    corpus = B A A B A B A A A A A A, find = B A A B A A (A = (0,0), B = (1,0)): the mismatch at
+    corpus = B A A B A B A A, find = B A A B A A (A = (0,0), B = (1,0); the shortest such pair over
+    two letters): the mismatch at
     i = 5 sets i = table[5] = 2 and m = 0 + 2 - table[2] = 2 (the standard algorithm: m = 3); the
     comparison resumes at corpus[4], everything matches, and 2 is returned although
     corpus[2..8) = A B A B A A. *)
@@ -395,7 +395,7 @@ Definition occurs_at (corpus find : list pt) (m : Z) : bool :=
 
 Example kmpSearch_unsound_refuted :
   let A := (0, 0) in let B := (1, 0) in
-  let corpus := [B; A; A; B; A; B; A; A; A; A; A; A] in
+  let corpus := [B; A; A; B; A; B; A; A] in
   let find := [B; A; A; B; A; A] in
   kmpSearch corpus find = Ok 2 /\ occurs_at corpus find 2 = false /\
   firstn 6 (skipn 2 corpus) = [A; B; A; B; A; A].
